@@ -3,6 +3,7 @@ package main
 import (
 	"go/token"
 	"go/types"
+	"os"
 	"strings"
 
 	"golang.org/x/tools/go/ssa"
@@ -16,7 +17,7 @@ func init() {
 		Run:     runC19,
 		Trusted: []string{"net/http.Transport honours ResponseHeaderTimeout/IdleConnTimeout/MaxIdleConnsPerHost/Dial; net.Dialer honours Timeout/KeepAlive",
 			"httputil.ReverseProxy calls ErrorHandler on RoundTrip errors"},
-		Mutants: append([]mutant{
+		Mutants: c19devFilter(append([]mutant{
 			{Name: "connection cap queues requests", File: "transport/transport.go", Old: "\t\tMaxIdleConnsPerHost:   cfg.Proxy.MaxConn,\n", New: "\t\tMaxIdleConnsPerHost:   cfg.Proxy.MaxConn,\n\t\tMaxConnsPerHost:       cfg.Proxy.MaxConn,\n", Expect: "C19.T4"},
 			{Name: "deadline on the whole upstream exchange", File: "proxy/http_proxy.go", Old: "\t\th = newHTTPProxy(targetURL, tr, p.Config.GlobalFlushInterval)\n", New: "\t\th = newHTTPProxy(targetURL, tr, p.Config.GlobalFlushInterval)\n\t\tif d := p.Config.ResponseHeaderTimeout; d > 0 {\n\t\t\tctx, cancel := context.WithTimeout(r.Context(), p.Config.DialTimeout+d)\n\t\t\tdefer cancel()\n\t\t\tr = r.WithContext(ctx)\n\t\t}\n", Expect: "C19.D1", More: []repl{{"import (\n", "import (\n\t\"context\"\n"}}},
 			{Name: "benign: request context wrapped without a deadline", File: "proxy/http_proxy.go", Old: "\t\th = newHTTPProxy(targetURL, tr, p.Config.GlobalFlushInterval)\n", New: "\t\th = newHTTPProxy(targetURL, tr, p.Config.GlobalFlushInterval)\n\t\tctx, cancel := context.WithCancel(r.Context())\n\t\tdefer cancel()\n\t\tr = r.WithContext(ctx)\n", Expect: "", More: []repl{{"import (\n", "import (\n\t\"context\"\n"}}},
@@ -33,8 +34,24 @@ func init() {
 			{Name: "deadline errors classified as client disconnects before the timeout test", File: "proxy/http_handler.go", Old: "\tif e, ok := err.(net.Error); ok {", New: "\tif err == context.DeadlineExceeded {\n\t\tstatusCode = StatusClientClosedRequest\n\t} else if e, ok := err.(net.Error); ok {", Expect: "C19.F5"},
 			{Name: "benign: canceled tested before the timeout", File: "proxy/http_handler.go", Old: "\tif e, ok := err.(net.Error); ok {", New: "\tif err == context.Canceled {\n\t\tstatusCode = StatusClientClosedRequest\n\t} else if e, ok := err.(net.Error); ok {", Expect: ""},
 			{Name: "benign: local alias for cfg.Proxy", File: "transport/transport.go", Old: "\treturn &http.Transport{", New: "\tp := cfg.Proxy\n\t_ = p\n\treturn &http.Transport{", Expect: ""},
-		}, append(c19moreMutants(), c19round2Mutants()...)...),
+		}, append(append(c19moreMutants(), c19round2Mutants()...), c19round3Mutants()...)...)),
 	})
+}
+
+// c19devFilter: development aid - C19_MUTANT=<substring> restricts `verifcheck mutants C19` to the mutants whose name
+// contains it.
+func c19devFilter(ms []mutant) []mutant {
+	want := os.Getenv("C19_MUTANT")
+	if want == "" {
+		return ms
+	}
+	var keep []mutant
+	for _, m := range ms {
+		if strings.Contains(m.Name, want) {
+			keep = append(keep, m)
+		}
+	}
+	return keep
 }
 
 func runC19(c *Ctx) {
@@ -470,6 +487,11 @@ func runC19F1(c *Ctx, newT *ssa.Function, reqs []c19cfgReq) map[ssa.Instruction]
 				switch a := addr.(type) {
 				case *ssa.Global:
 					if a != q.root {
+						return
+					}
+					j = 0
+				case *ssa.UnOp: // `*cfg = *c`: the object the (pointer) variable designates is overwritten as a whole
+					if g, isG := a.X.(*ssa.Global); !isG || a.Op != token.MUL || g != q.root {
 						return
 					}
 					j = 0
